@@ -149,18 +149,37 @@ def should_strip_fragment(fragment):
     return fragment.startswith("/") or fragment.startswith("!")
 
 
+def strip_irrelevant_parts_from_hostname(
+    hostname, normalize_amp=True, strip_irrelevant_subdomains=True
+):
+    pattern = IRRELEVANT_SUBDOMAIN_AMP_RE if normalize_amp else IRRELEVANT_SUBDOMAIN_RE
+
+    # NOTE: removing the "amp-" prefix can reveal an irrelevant subdomain
+    # ("amp-www.x.com") and vice versa ("www.amp-x.com"): both steps are
+    # repeated until the hostname is stable, so that the result needs no
+    # further normalization
+    while True:
+        previous = hostname
+
+        if normalize_amp and hostname.startswith("amp-"):
+            hostname = hostname[4:]
+
+        if strip_irrelevant_subdomains:
+            hostname = pattern.sub("", hostname)
+
+        if hostname == previous:
+            return hostname
+
+
 def normalize_hostname(hostname, normalize_amp=True):
     hostname = hostname.strip().lower()
     hostname = CONTROL_CHARS_RE.sub("", hostname)
 
-    pattern = IRRELEVANT_SUBDOMAIN_AMP_RE if normalize_amp else IRRELEVANT_SUBDOMAIN_RE
+    hostname = strip_irrelevant_parts_from_hostname(
+        hostname, normalize_amp=normalize_amp
+    )
 
-    # NOTE: done first so that "amp-www.x.com" still loses its "www."
-    if normalize_amp and hostname.startswith("amp-"):
-        hostname = hostname[4:]
-
-    hostname = pattern.sub("", hostname)
-
+    # NOTE: done last, an "amp-" prefix hides the "xn--" header of its label
     hostname = decode_punycode_hostname(hostname)
 
     return hostname
@@ -298,14 +317,15 @@ def normalize_url(
     if fix_common_mistakes and query:
         query = fix_common_query_mistakes(query)
 
-    # Normalizing AMP subdomains
-    # NOTE: done first: an "amp-" prefix hides the "xn--" header of its label,
-    # and "amp-www.x.com" must still lose its "www."
-    if normalize_amp and hostname and hostname.lower().startswith("amp-"):
-        hostname = hostname[4:]
-
-    # Handling punycode
+    # Dropping irrelevant subdomains & AMP prefix, then handling punycode
+    # NOTE: punycode is decoded last, an "amp-" prefix hides the "xn--" header
+    # of its label
     if hostname:
+        hostname = strip_irrelevant_parts_from_hostname(
+            hostname.lower(),
+            normalize_amp=normalize_amp,
+            strip_irrelevant_subdomains=strip_irrelevant_subdomains,
+        )
         hostname = decode_punycode_hostname(hostname).lower()
 
     # Dropping :80 & :443
@@ -386,14 +406,6 @@ def normalize_url(
     # Always dropping trailing slash with empty query & fragment
     if path == "/" and not fragment and not query:
         path = ""
-
-    # Dropping irrelevant subdomains
-    if hostname and strip_irrelevant_subdomains:
-        hostname = re.sub(
-            IRRELEVANT_SUBDOMAIN_AMP_RE if normalize_amp else IRRELEVANT_SUBDOMAIN_RE,
-            "",
-            hostname,
-        )
 
     # Dropping scheme
     if strip_protocol or not has_protocol:
